@@ -35,6 +35,7 @@ type Contract struct {
 	Flags    map[string]bool // inline pure trusted noinline lemma
 	Props    []string
 	Fuel     int
+	Rank     int
 	FuelFor  map[string]int
 	File     string
 }
@@ -125,6 +126,10 @@ func parseContractFile(path string) ([]*Contract, error) {
 			for _, f := range fields {
 				cur.Flags[f] = true
 			}
+			last = nil
+			continue
+		case "rank":
+			fmt.Sscanf(fields[1], "%d", &cur.Rank)
 			last = nil
 			continue
 		case "props":
